@@ -187,6 +187,137 @@ exec_rep(const vcase *vc, const Flavor *fl)
 				if (f2 != W.ready.end())
 					W.ready.erase(f2);
 			}
+		} else if (n == "jamrep") {
+			// jamrep nctx hops : a self-contained episode on a fresh wire peer that does not read: nctx fresh contexts each take one
+			// request and answer with a large reply (the first is half-written, the others wait on the pipe), the last context then
+			// receives one more request while its reply is still queued; finally the peer drains.  Every reply must carry the
+			// backtrace of the request it answers.
+			bool quiet = W.ready.empty();
+			for (int q = 0; q < 3; q++)
+				if (!W.q[q].empty() || !W.ghost[q].empty() || (W.c[q].open && W.c[q].has))
+					quiet = false;
+			int nctx = k < 2 ? 2 : k > 4 ? 4 : k;
+			int hops = a1 < 0 ? 0 : a1 > 5 ? 5 : a1;
+			if (!quiet || hops + 1 > W.ttl)
+				continue;
+			rp T;
+			rp_socket_sndbuf = 1;
+			int arv          = rp_attach_socket(&T, W.l);
+			rp_socket_sndbuf = 0;
+			H_OK(arv);
+			uint16_t pp = 0;
+			int      hr = rp_handshake(&T, fl->peer_proto, &pp);
+			VR_CHECK(hr == 0 && pp == fl->self_proto, "harness:handshake", "jamrep handshake %d %x", hr, pp);
+			vs_settle();
+			struct Ep {
+				nng_ctx  ctx;
+				nng_aio *sndaio = nullptr;
+				Bytes    trace;
+				uint32_t rtag = 0;
+				bool     got  = false;
+			};
+			std::vector<Ep>                 ep((size_t) nctx);
+			std::map<uint32_t, Bytes>       trace_of; // request tag -> its backtrace
+			for (int q = 0; q < nctx + 1; q++) {
+				Bytes tr;
+				for (int h = 0; h < hops; h++)
+					put32(tr, 0x02000000u + (uint32_t) (h * 131 + q * 7 + 1));
+				put32(tr, 0x80000000u | (0x4000u + ++W.seq));
+				uint32_t tag = 0x7a000000u | W.seq;
+				trace_of[tag] = tr;
+				Bytes f       = tr;
+				put32(f, tag);
+				VR_CHECK(rp_send_msg(&T, f.data(), f.size()) == 0, "harness:write", "raw request write failed");
+				vs_settle();
+			}
+			auto recv_on = [&](nng_ctx cx, uint32_t *tag) -> int {
+				nng_aio *a;
+				H_OK(nng_aio_alloc(&a, NULL, NULL));
+				nng_aio_set_timeout(a, 100);
+				nng_ctx_recv(cx, a);
+				nng_aio_wait(a);
+				int rv = nng_aio_result(a);
+				if (rv == 0) {
+					nng_msg *m = nng_aio_get_msg(a);
+					*tag       = nng_msg_len(m) >= 4 ? get32((uint8_t *) nng_msg_body(m)) : 0;
+					nng_msg_free(m);
+				}
+				nng_aio_free(a);
+				return rv;
+			};
+			bool ok = true;
+			for (auto &E : ep) {
+				H_OK(nng_ctx_open(&E.ctx, W.s));
+				uint32_t tag = 0;
+				if (recv_on(E.ctx, &tag) != 0 || !trace_of.count(tag)) {
+					ok = false;
+					break;
+				}
+				E.trace = trace_of[tag];
+				E.got   = true;
+			}
+			if (ok) {
+				for (auto &E : ep) {
+					E.rtag = 0x7b000000u | ++W.seq;
+					H_OK(nng_aio_alloc(&E.sndaio, NULL, NULL));
+					nng_aio_set_msg(E.sndaio, h_msg(E.rtag, 20000));
+					nng_ctx_send(E.ctx, E.sndaio);
+					vs_settle();
+				}
+				int waiting = 0;
+				for (auto &E : ep)
+					if (nng_aio_busy(E.sndaio))
+						waiting++;
+				if (waiting >= 1)
+					vr_tag("reply_queued_behind_busy_pipe");
+				// the last context takes the next request while its reply still waits
+				uint32_t tag2 = 0;
+				if (recv_on(ep.back().ctx, &tag2) == 0)
+					vr_tag("request_received_while_reply_queued");
+				// the peer drains
+				size_t got = 0;
+				for (int round = 0; round < 600 && got < ep.size(); round++) {
+					vs_settle();
+					uint8_t *pl;
+					size_t   pn;
+					int      g = rp_recv_msg(&T, &pl, &pn);
+					VR_CHECK(g >= 0, sg("wire-garbage").c_str(), "replier wrote a malformed frame");
+					if (g == 0) {
+						vs_sleep(1);
+						continue;
+					}
+					VR_CHECK(pn >= 20004 + 4, sg("rep-reply-body").c_str(), "reply frame of %zu bytes", pn);
+					size_t   tl   = pn - 20004;
+					uint32_t rtag = get32(pl + tl);
+					Ep      *E    = nullptr;
+					for (auto &x : ep)
+						if (x.rtag == rtag)
+							E = &x;
+					VR_CHECK(E != nullptr, sg("rep-reply-body").c_str(), "reply with unknown body tag %x", rtag);
+					VR_CHECK(tl == E->trace.size() && memcmp(pl, E->trace.data(), tl) == 0, sg("rep-backtrace").c_str(),
+					    "a reply that waited behind a busy pipe carries a %zu-byte backtrace that is not the one of the request it answers (%zu bytes)%s", tl, E->trace.size(),
+					    tl == E->trace.size() ? ": same length, different words" : "");
+					for (size_t q = tl + 4; q < pn; q++)
+						VR_CHECK(pl[q] == (uint8_t) (rtag * 31 + (q - tl - 4) * 7), sg("rep-reply-body").c_str(), "reply body corrupted at offset %zu", q - tl - 4);
+					free(pl);
+					got++;
+				}
+				VR_CHECK(got == ep.size(), sg("rep-reply-missing").c_str(), "%zu of %zu replies that waited behind a busy pipe never reached the wire", ep.size() - got, ep.size());
+				exchanges += (int) got;
+				vr_tag("jammed_replies_checked");
+			}
+			for (auto &E : ep) {
+				if (E.sndaio) {
+					nng_aio_wait(E.sndaio);
+					if (nng_aio_result(E.sndaio) != 0 && nng_aio_get_msg(E.sndaio))
+						nng_msg_free(nng_aio_get_msg(E.sndaio));
+					nng_aio_free(E.sndaio);
+				}
+				if (E.got || true)
+					nng_ctx_close(E.ctx);
+			}
+			rp_close(&T);
+			vs_settle();
 		} else if (n == "ctxopen") {
 			if (k < 1 || k > 2 || W.c[k].open)
 				continue;
